@@ -15,7 +15,7 @@ func init() {
 		Level: "other",
 		Explanation: "Lock-manager discipline decided on all paths (hence all schedules). R15a (lock-set machine with context-sensitive inlining from every entry point of package command): every access to DefaultLocker.readLocks/writeLocks/intents and every method call on the intents list or its nodes happens with DefaultLocker.mu held. " +
 			"R15b (tables): tryLock tests (Read,writeLocks), (Write,readLocks), (Write,writeLocks) with `return false`, no test is reachable from an acquisition, acquisitions are exactly (Read,readLocks++), (Write,writeLocks); unlock mirrors them, deleting a read entry only when its counter reaches zero. " +
-			"R15c: every call of lockIntent.unlock is followed, before the mutex is released, by the queue re-examination. R15d: on the cancellation arm of Lock every path to the error return holds the mutex while it either removes the still-queued intent or, when the intent was granted meanwhile, gives the accounts back and re-examines the queue. R15f: what queuing a request adds to the locker state, abandoning takes back — every DefaultLocker field changed on the way to the blocking select (outside boolean probes) is changed again on the path that abandons a still-queued request after ctx.Done (a waiting-writers counter that only the grant decrements leaves a phantom waiter). R15g: the queue stays a well-formed doubly-linked list — LinkedListNode.Remove writes both link fields of the node type and both end fields of the list type (read from the type shape), and a LinkedList method that searches and hands out a node (RemoveFirst) has unlinked it on every path that returns it.",
+			"R15c: every call of lockIntent.unlock is followed, before the mutex is released, by the queue re-examination. R15d: on the cancellation arm of Lock every path to the error return holds the mutex while it either removes the still-queued intent or, when the intent was granted meanwhile, gives the accounts back and re-examines the queue. R15f: what queuing a request adds to the locker state, abandoning takes back — every DefaultLocker field changed on the way to the blocking select (outside boolean probes) is changed again on the path that abandons a still-queued request after ctx.Done (a waiting-writers counter that only the grant decrements leaves a phantom waiter). R15h: LinkedList.RemoveValue looks for the value it is given (its predicate is an equality), and the loops of the function that gives the accounts back are left only when exhausted. R15g: the queue stays a well-formed doubly-linked list — LinkedListNode.Remove writes both link fields of the node type and both end fields of the list type (read from the type shape), and a LinkedList method that searches and hands out a node (RemoveFirst) has unlinked it on every path that returns it.",
 		NotDecided:  "fairness beyond `every release re-examines every waiter`; pointer surgery inside collectionutils.LinkedList; liveness under goroutine starvation.",
 		Trusted:     []string{"sync.Mutex, select and channel-close semantics"},
 		Assumptions: []string{"DefaultLocker values are created by NewDefaultLocker only (composite literals elsewhere are reported)"},
@@ -720,6 +720,7 @@ func ruleR15cd(c *Ctx) {
 	// otherwise the walk stops at the first grant and the other requests that became grantable stay queued.
 	ruleR15e(c, isRecheck)
 	ruleR15g(c, "R15g")
+	ruleLockListDetails(c, "R15h")
 	if nUnlockCalls == 0 {
 		oblC.undecided("floor:unlock-call-sites", token.NoPos, "no call of lockIntent.unlock found")
 	}
